@@ -436,3 +436,8 @@ package operator
 //@   ensures [invariant-kept] result == b && builderOK(b)
 //@   loop 1 invariant forall s uint64 :: {visited(peers, s)} visited(peers, s) && in(peers, s) ==> s != 0 && peers[s] != nil && peers[s].StoreId == s
 //@   modifies b.err, b.targetPeers, b.targetLeaderStoreID
+
+// The operator constructors are surroundings of the schedulers and checkers (their steps are the subject of C08/C09).
+//@ func CreateScatterRegionOperator
+//@   assumed
+//@   modifies nothing
